@@ -70,8 +70,11 @@ _PCT = re.compile(rb"%([0-9A-Fa-f]{2})")
 
 
 def decode_cim_header(wire):
-    """DSP0200 extension header decoding: %-unescape, then UTF-8.
-    -> (ok, text)"""
+    """The header value as a receiver reads it: the HTTP field value is what
+    is left after removing the optional white space around it (RFC 7230
+    3.2.4), then the DSP0200 extension header decoding: %-unescape, then
+    UTF-8.  -> (ok, text)"""
+    wire = wire.strip(b" \t")
     raw = _PCT.sub(lambda m: bytes([int(m.group(1), 16)]), wire)
     try:
         return True, raw.decode("utf-8")
